@@ -317,6 +317,7 @@ def run(ctx):
     nidx = 0
     nasm = 0
     necond = 0
+    nidxf = 0
     try:
         import hineslib
         from jaxley.solver_voltage import step_voltage_implicit_with_jaxley_spsolve  # noqa: F401
@@ -333,7 +334,13 @@ def run(ctx):
             for cells in ([([-1, 0], [2, 1]), ([-1], [2]), ([-1, 0, 0], [2, 2, 2])], [([-1], [1]), ([-1], [1])],
                           [([-1, 0, 0, 1], [2, 1, 2, 1]), ([-1, 0], [2, 1]), ([-1], [2])], [([-1, 0], [2, 1]), ([-1], [1])]):
                 mods.append(({"network_of": cells}, jx.Network([jx.Cell([jx.Branch([comp] * n) for n in c], parents=q) for q, c in cells])))
-        exprs, metas, idx_jobs = [], [], []
+            for _ in range(ctx.budget(4, 24)):
+                cells = []
+                for _ in range(rng.randint(1, 4)):
+                    nb_ = rng.randint(1, ctx.budget(5, 8))
+                    cells.append((simlib.rand_parents(rng, nb_) if nb_ > 1 else [-1], [rng.randint(1, 4) for _ in range(nb_)]))
+                mods.append(({"network_of": cells}, jx.Network([jx.Cell([jx.Branch([comp] * n) for n in c], parents=q) for q, c in cells])))
+        exprs, metas, idx_jobs, idxf_jobs = [], [], [], []
         for case, m in mods:
             st = hineslib.structure(m)
             g, v0, vt, ct, dtq = hineslib.random_values(rng, st)
@@ -352,6 +359,22 @@ def run(ctx):
                 # Model/HinesIdx.v (about which C01_checker_accepts_every_cell is proved) must produce
                 # exactly the index structure the code built
                 idx_jobs.append(("idx_summary " + hineslib.nat_list([max(q_, 0) for q_ in case["parents"]]) + " " + hineslib.nat_list(case["counts"]), case, st))
+            if "network_of" in case:
+                # Model/HinesIdxF.v / Model/AsmIdxF.v (about which the C01_*_every_network_* theorems are proved) must
+                # produce exactly what the code built for this network: global parents, root flags, counts
+                gp_ = [int(x_) for x_ in np.asarray(m.comb_parents)]       # the code's own global parent vector (-1: root)
+                ps_ = [max(x_, 0) for x_ in gp_]
+                rs_ = [x_ < 0 for x_ in gp_]
+                ns_ = [int(x_) for x_ in np.asarray(m.ncomp_per_branch)]
+                cellno_ = list(np.cumsum(rs_))
+                hyp_ok = (len(ps_) >= 1 and all(rs_[b_] or ps_[b_] < b_ for b_ in range(len(ps_))) and all(n_ >= 1 for n_ in ns_)
+                          and all(rs_[b_] or cellno_[ps_[b_]] == cellno_[b_] for b_ in range(len(ps_))))
+                if not hyp_ok:
+                    viol.append(dict(case, kind="the network's global parent vector / root flags / counts do not meet the hypotheses of the C01_*_every_network_* and C12_cells_of_every_network_independent theorems",
+                                     comb_parents=gp_, ncomp_per_branch=ns_, no_failing_input_found=True))
+                st["cell_of_comp"] = [int(x_) for x_ in m.nodes["global_cell_index"].to_numpy()]
+                st["cell_of_branch"] = [int(x_) for x_ in m.nodes.groupby("global_branch_index")["global_cell_index"].first().to_numpy()]
+                idxf_jobs.append(((hineslib.nat_list(ps_), hineslib.nat_list(ns_), "[" + "; ".join("true" if r_ else "false" for r_ in rs_) + "]"), case, st))
             metas.append((case, st, reals, dict(g=[float(x) for x in g], v=[float(x) for x in v0], vt=[float(x) for x in vt], ct=[float(x) for x in ct], dt=float(dtq))))
         outs = coqeval.coq_eval(["CableQ", "HinesArr", "HinesArrQ", "HinesCheck", "AsmStruct", "GraphStruct"], exprs, shard=6)
         for k, (case, st, reals, vals) in enumerate(metas):
@@ -432,6 +455,36 @@ def run(ctx):
             if model_idx != real_idx or st["roots"] != [0]:
                 viol.append(dict(case, kind="the index structure built by the code differs from Model/HinesIdx.v (theorem C01_checker_accepts_every_cell is about the model)",
                                  code=repr(real_idx)[:600], model=repr(model_idx)[:600], no_failing_input_found=True))
+        # networks: forest models against the code
+        fmods = ["HinesArr", "HinesCheck", "HinesIdx", "HinesIdxF", "AsmStruct", "AsmIdx", "AsmIdxF", "ForestCells"]
+        outs4 = coqeval.coq_eval(fmods, ["idx_summaryF " + " ".join(j[0]) for j in idxf_jobs] + ["asm_summaryF " + " ".join(j[0]) for j in idxf_jobs]
+                                 + [f"check_schedule (layout_ofF {j[0][0]} {j[0][1]} {j[0][2]}) (topo_ofF {j[0][0]} {j[0][2]}) (ops_of_forest {j[0][0]} {j[0][1]} {j[0][2]})" for j in idxf_jobs]
+                                 + [f"map (node_cell {j[0][0]} {j[0][1]} {j[0][2]}) (seq 0 {j[2]['ncomp'] + len(j[2]['par_inds'])})" for j in idxf_jobs],
+                                 prelude="Close Scope Q_scope. Open Scope nat_scope.", shard=6)
+        nf = len(idxf_jobs)
+        for k, (expr, case, st) in enumerate(idxf_jobs):
+            cum, (plm, (lev, roots)) = ast.literal_eval(outs4[k].replace("%nat", "").replace(";", ","))
+            model_idx = (list(cum), list(plm), [([tuple(x) for x in a], [tuple(x) for x in b]) for a, b in lev], list(roots))
+            real_idx = (st["cs"] + [st["cs"][-1] + st["pl"][-1]], st["pl"], [([tuple(x) for x in a], [tuple(x) for x in b]) for a, b in st["levels"]], st["roots"])
+            nidxf += 1
+            if model_idx != real_idx:
+                viol.append(dict(case, kind="the index structure the code built for the NETWORK (per-cell padding, merged levels, roots) differs from Model/HinesIdxF.v (theorem C01_checker_accepts_every_network is about the model)",
+                                 code=repr(real_idx)[:600], model=repr(model_idx)[:600], no_failing_input_found=True))
+            ts, (mk, (gr, (ch, pr))) = ast.literal_eval(outs4[nf + k].replace("%nat", "").replace(";", ","))
+            model_asm = ([tuple(t) for t in ts], list(mk), list(gr), list(ch), list(pr))
+            real_asm = ([tuple(e) for e in st["edges"]], st["mask"], st["group"], st["child_inds"], st["par_inds"])
+            if model_asm != real_asm:
+                viol.append(dict(case, kind="the edge table / slot remapping / branch-point groups / child_inds / par_inds the code built for the NETWORK differ from Model/AsmIdxF.v (theorem C01_every_network_step_solves_the_cable_graph_equations is about the model)",
+                                 code=repr(real_asm)[:700], model=repr(model_asm)[:700], no_failing_input_found=True))
+            # the cell of every node (C12_cells_of_every_network_independent): compartments by the code's node table,
+            # branch points by the cell of their parent branch
+            model_cells = list(ast.literal_eval(outs4[3 * nf + k].replace("%nat", "").replace(";", ",")))
+            real_cells = [c_ + 1 for c_ in st["cell_of_comp"]] + [st["cell_of_branch"][p_] + 1 for p_ in st["par_inds"]]
+            if model_cells != real_cells:
+                viol.append(dict(case, kind="the cell of a compartment / branch point in the code's tables differs from node_cell of Proofs/ForestCells.v (theorem C12_cells_of_every_network_independent is about the model)",
+                                 code=real_cells, model=model_cells, no_failing_input_found=True))
+            if outs4[2 * nf + k] != "true":
+                viol.append(dict(case, kind="check_schedule rejects the forest model of this network (contradicts theorem C01_checker_accepts_every_network: model or build broken)", no_failing_input_found=True))
     except Exception as ex:
         import traceback
         viol.append({"kind": "array-level correspondence could not be evaluated", "error": repr(ex)[:500], "trace": traceback.format_exc()[-600:], "no_failing_input_found": True})
@@ -454,7 +507,7 @@ def run(ctx):
     return {"evaluations": evals, "distinct_nontrivial": len(distinct),
             "rule": "one voltage step of every enumerated sorted tree (<=4/5 branches) x sampled compartment counts {1,2,3} + random larger trees, heterogeneous dyadic parameters, optional stimulus, dt in {0.025 .. 1e9}, bwd/CN x 3 backends + fwd on cables + networks; each output checked by exact backward error against an independent physical assembly and against Model/Cable.v in exact rationals; distinct by (tree, counts)",
             "samples": samples, "violations": viol[:20], "traces_validated_against_impl": nmodel,
-            "cases_with_padded_parent_branch": ncrit, "array_level_modules": narr, "index_structures_compared": nidx, "assembly_index_lists_compared": nasm, "edge_conductance_tables_compared": necond}
+            "cases_with_padded_parent_branch": ncrit, "array_level_modules": narr, "index_structures_compared": nidx, "assembly_index_lists_compared": nasm, "edge_conductance_tables_compared": necond, "network_index_structures_compared": nidxf}
 
 
 def replay(ctx, case):
